@@ -1292,6 +1292,20 @@ class Symbolic(
       if target is self and not notify_parents:
         break
 
+  def _sym_reset_content_cache(self) -> None:
+    """Resets the content-based cache of current node and its ancestors.
+
+    The cache (pure-symbolic flag, missing values, non-default values) depends
+    on the content only, thus it is reset by every write, no matter whether
+    the change notification is enabled or not.
+    """
+    node = self
+    while node is not None:
+      node._set_raw_attr('_sym_puresymbolic', None)       # pylint: disable=protected-access
+      node._set_raw_attr('_sym_missing_values', None)     # pylint: disable=protected-access
+      node._set_raw_attr('_sym_nondefault_values', None)  # pylint: disable=protected-access
+      node = node.sym_parent
+
   def _error_message(self, message: str) -> str:
     """Create error message to include path information."""
     return utils.message_on_path(message, self.sym_path)
